@@ -194,13 +194,19 @@ pub fn worker(w: &mut Worker) {
         let in_quotes = pi == 1;
         for dollar in [false, true] {
             for c in follow {
-                for pos in 0..3usize {
+                // what follows the escape keeps the line otherwise well-formed; the escape in the
+                // middle of an argument, at the very end of the line, in front of trailing white
+                // space and of a comment, and right in front of the closing quote
+                let tails: &[&str] = if in_quotes { &["z\"", "\""] } else { &["z", "", " ", " # c"] };
+                for (pos, tail) in (0..3usize).flat_map(|p| tails.iter().map(move |t| (p, *t))) {
+                    if c.is_empty() && !dollar && tail == "\"" {
+                        // `"\"` is an escaped quote in an unterminated argument: another error kind
+                        continue;
+                    }
                     if !w.take() {
                         continue;
                     }
                     let esc = if dollar { format!("\\${}", c) } else { format!("\\{}", c) };
-                    // what follows the escape keeps the line otherwise well-formed
-                    let tail = if in_quotes { "z\"" } else { "z" };
                     let line = format!("{}{}{}", prefix, esc, tail);
                     let valid = if dollar { c == "{" } else { matches!(c, "n" | "r" | "t" | "\\" | "\"") };
                     let mut ls = vec!["echo before", "x = set 1", "echo after"];
@@ -317,7 +323,7 @@ pub fn crash_sig(_case: &Value, kind: &str) -> String {
     kind.to_string()
 }
 
-pub const RULE: &str = "enumeration (no duplicates within a phase): planted malformed line (6 kinds x 4-5 spellings) at every position among every choice of well-formed lines (pool of 10), LF and CRLF; pairs of malformed lines; the escape table (a backslash, and a backslash-dollar, followed by each of 18 characters in 4 argument positions at every line position: only the documented escapes parse, all others are rejected with ControlWithoutValidValue); every sequence of tokens from a pool of 14; lines of 10^4 and 10^5 repeated characters of each class; every text up to the length bound over {a SP \" \\ # = : ! $ { LF CR} (+TAB, e-acute). Oracle: no panic; Ok => one instruction per line with line numbers 1..n, no source tag, blank/comment lines Empty, each line parses alone to the same instruction; Err(kind,k) => 1<=k<=n and line k alone is rejected with the same kind; planted error => that kind and line. Non-trivial: the text contains one of \" \\ # = : !; states = distinct (verdict, error kind, error line, line count) classes, transitions = parse_text calls on whole texts";
+pub const RULE: &str = "enumeration (no duplicates within a phase): planted malformed line (6 kinds x 4-5 spellings) at every position among every choice of well-formed lines (pool of 10), LF and CRLF; pairs of malformed lines; the escape table (a backslash, and a backslash-dollar, followed by each of 18 characters in 4 argument positions, in the middle of an argument / at the end of the line / before trailing white space / before a comment / before the closing quote, at every line position: only the documented escapes parse, all others are rejected with ControlWithoutValidValue); every sequence of tokens from a pool of 14; lines of 10^4 and 10^5 repeated characters of each class; every text up to the length bound over {a SP \" \\ # = : ! $ { LF CR} (+TAB, e-acute). Oracle: no panic; Ok => one instruction per line with line numbers 1..n, no source tag, blank/comment lines Empty, each line parses alone to the same instruction; Err(kind,k) => 1<=k<=n and line k alone is rejected with the same kind; planted error => that kind and line. Non-trivial: the text contains one of \" \\ # = : !; states = distinct (verdict, error kind, error line, line count) classes, transitions = parse_text calls on whole texts";
 pub const ASSUMPTIONS: &[&str] = &["no !include_files directive in the texts (C14 covers includes)"];
 pub const EXHAUSTIVE: bool = true;
 pub const WALL_CAP_S: (u64, u64) = (50, 1500);
